@@ -237,7 +237,17 @@ def _transform_rule(ctx, out, qname, getter, elem_cls_mod, name):
     def hook(rn, ev, call, cname, recv, args, kwargs):
         if cname == "Point2D":
             v = point2d(*args)
-            return TolPV(v.x, v.y)
+            x, y = v.x, v.y
+            if name == "scale" and not (len(args) == 1 and isinstance(args[0], PV)):
+                # factors are not coordinates: a pair of them sent through the constructor comes back as the
+                # repository's own __init__ stores it (denominators capped), and that is what the parts then receive
+                from rules import pointworld
+                try:
+                    W = pointworld.World(ctx)
+                    x, y = W.xy(W.construct(W.runner(), [x, y]))
+                except (Undecided, Raised):
+                    pass
+            return TolPV(x, y)
         if cname == "isinstance":
             return True
         if cname == "float" and args and isinstance(args[0], Obj) and hasattr(args[0], "area"):
